@@ -27,16 +27,16 @@ const (
 // StartRec is one recorded process start.
 type StartRec struct {
 	Signals []string // signals other than SIGKILL sent to the process
-	Path   string
-	Args   []string
-	Env    []string
-	Step   int
-	VTime  vtime.Duration
-	Thread string
-	Err    string
-	Killed bool
-	KillAt vtime.Duration
-	Waited bool
+	Path    string
+	Args    []string
+	Env     []string
+	Step    int
+	VTime   vtime.Duration
+	Thread  string
+	Err     string
+	Killed  bool
+	KillAt  vtime.Duration
+	Waited  bool
 }
 
 type World struct {
